@@ -340,6 +340,7 @@ def option_value_table(prog, chk):
     environment_handover(prog, chk, "C20.j")
     argv_cursor_bounded(prog, chk, "C20.k")
     select_covers_registered(prog, chk, "C20.l")
+    select_arguments_rearmed(prog, chk, "C20.m")
 
 
 def quoted_word_typestate(prog, chk, rid):
@@ -692,3 +693,38 @@ def select_covers_registered(prog, chk, rid):
                 "and join() is never reached" % (bad[0], fds[0].replace("this->", ""), bad[1], fds[1].replace("this->", ""), bad[2], bad[3]), evals=n_ev)
     else:
         chk.ok(rid, f, "nfds exceeds every registered descriptor", where, "%d valuations (mask x descriptor order)" % n_ev, evals=n_ev)
+
+
+def select_arguments_rearmed(prog, chk, rid):
+    """select() overwrites the descriptor sets it is given (only the ready descriptors stay, none after a timeout) and, on Linux, the
+    timeout (what is left of it).  A retry must therefore build both again: calling it again with the old objects waits for nothing."""
+    chk.rule(rid, "MPT: no path from a select() call back to a select() call on the same fd_set / timeval objects avoids the statements that "
+                  "set those objects up (FD_ZERO/FD_SET stores, the timeval's initialisation)", floor=1)
+    n = 0
+    for f in [g for g in prog.functions.values() if g.file.endswith("Process.cpp") and g.blocks]:
+        for c in callsn(f, "select"):
+            n += 1
+            args = q.call_args(f, c)
+            objs = []
+            for a in args[1:5]:
+                t = q.no_casts(f.r(a)).lstrip("&")
+                if re.match(r"^\w+$", t) and t not in ("0", "NULL", "nullptr"):
+                    objs.append(t)
+            bad = None
+            for o in objs:
+                names_ = [o] + [d_["n"] for nd_ in f.nodes if nd_["k"] == "DeclStmt" for d_ in nd_["decls"]
+                                if d_.get("init") is not None and q.no_casts(f.r(d_["init"])).strip("()") == "&" + o]       # FD_ZERO: `fd_set* __arr = &fdr`
+                setup = [st.node for st in q.stores(f) if any(re.match(r"^&?%s\b" % re.escape(nm_), q.no_casts(f.r(st.lhs)).lstrip("(*")) for nm_ in names_)]
+                setup += [nd["i"] for nd in f.nodes if nd["k"] == "DeclStmt" and any(d["n"] in names_ and d.get("init") is not None for d in nd["decls"])]
+                again = f.find_path(f.node_pos(c), {f.node_pos(c)}, avoid=q.pos_of(f, setup))
+                if again is not None:
+                    bad = (o, again)
+                    break
+            if bad:
+                chk.bad(rid, f, "select-retried-with-consumed-arguments:" + bad[0], f.where(c),
+                        "select() is called again (lines %s) with `%s` as the previous call left it: after a timeout the descriptor set is empty "
+                        "and the remaining time is zero, so the loop spins without ever seeing the child's output" % (f.path_lines(bad[1])[:6], bad[0]), evals=len(objs) + 1)
+            else:
+                chk.ok(rid, f, "select() arguments %s are set up again before every call" % objs, f.where(c), "cycle search avoiding the set-up statements", evals=len(objs) + 1)
+    if not n:
+        raise AnalysisBroken("no select() call found in Process.cpp")
